@@ -29,6 +29,8 @@ MAGS = [1e-3, 0.05, 0.5, 1.0, 4.0, 50.0, 1e3]
 
 # ------------------------------------------------------------------ consumers (thresholder-like: LLR tensor (B,L) -> bits)
 def thresholder_consumers():
+    import torch
+
     from kaira.models.binary import soft_bit_thresholding as T
     from kaira.models.fec import utils as FU
 
@@ -43,6 +45,11 @@ def thresholder_consumers():
         "WeightedThresholder(llr)": lambda: T.WeightedThresholder(weights=1.0, threshold=0.5, input_type=LLR),
         "DynamicThresholder(llr)": lambda: T.DynamicThresholder(input_type=LLR),
         "Ensemble(LLR,Hysteresis,Weighted)": lambda: T.SoftBitEnsembleThresholder([T.LLRThresholder(), T.WeightedThresholder(weights=1.0, input_type=LLR), T.LLRThresholder(confidence_scaling=2.0)], voting="majority"),
+        "Ensemble(weighted,explicit weights,3 members)": lambda: T.SoftBitEnsembleThresholder([T.LLRThresholder(), T.WeightedThresholder(weights=1.0, input_type=LLR), T.LLRThresholder(confidence_scaling=2.0)], voting="weighted", weights=[0.5, 0.3, 0.2]),
+        "Ensemble(weighted,default weights)": lambda: T.SoftBitEnsembleThresholder([T.LLRThresholder(), T.LLRThresholder(confidence_scaling=2.0)], voting="weighted"),
+        "Ensemble(weighted,explicit weights,4 members)": lambda: T.SoftBitEnsembleThresholder([T.LLRThresholder(), T.LLRThresholder(confidence_scaling=0.5), T.WeightedThresholder(weights=1.0, input_type=LLR), T.LLRThresholder(confidence_scaling=2.0)], voting="weighted", weights=torch.tensor([1.0, 2.0, 3.0, 4.0])),
+        "Ensemble(any)": lambda: T.SoftBitEnsembleThresholder([T.LLRThresholder(), T.LLRThresholder(confidence_scaling=2.0), T.WeightedThresholder(weights=1.0, input_type=LLR)], voting="any"),
+        "Ensemble(all)": lambda: T.SoftBitEnsembleThresholder([T.LLRThresholder(), T.LLRThresholder(confidence_scaling=2.0), T.WeightedThresholder(weights=1.0, input_type=LLR)], voting="all"),
         "llr_to_bits": lambda: FU.llr_to_bits,
         "sign_to_bin(sign)": lambda: (lambda x: FU.sign_to_bin(__import__("torch").sign(x))),
     }
